@@ -351,20 +351,31 @@ def check(fx, rep, tier):
                             via = True
             if direct or via:
                 resets.append((x, xps))
-    if rep.anchor("R08.3", bool(pops), "the place where the advance function retires a thread (pops it from the queue)"):
-        pop, pps = pops[0]
+    rep.anchor("R08.3", bool(pops), "the place where the advance function retires a thread (pops it from the queue)")
+    for pi, (pop, pps) in enumerate(pops):
         ok_reset = False
+        pop_conds = {id(a): key for a, key in pps if a.get("k") in ("If", "Match") and key in ("then", "else", "arms")}
         for x, xps in resets:
             # short-circuit operand or nested condition that is not also a condition of the pop?
             in_short_circuit = any(a.get("k") == "Binary" and a["op"] in ("Or", "And") and key == "r" for a, key in xps)
-            pop_conds = {id(a) for a, key in pps if a.get("k") in ("If", "Match") and key in ("then", "else", "arms")}
-            extra_conds = [a for a, key in xps if a.get("k") in ("If", "Match") and key in ("then", "else", "arms") and id(a) not in pop_conds and not a.get("exp")]
-            if not in_short_circuit and not extra_conds:
+            x_conds = {id(a): key for a, key in xps if a.get("k") in ("If", "Match") and key in ("then", "else", "arms") and not a.get("exp")}
+            extra_conds = [i for i in x_conds if i not in pop_conds]
+            other_branch = [i for i in x_conds if i in pop_conds and x_conds[i] != pop_conds[i]]
+            # a reset in a different branch than this pop (e.g. the pop returns early before reaching it) does not count
+            early_return_between = False
+            if not other_branch and not extra_conds:
+                pk, xk = T._span_key(pop["span"]), T._span_key(x["span"])
+                if xk[1] > pk[2]:
+                    # reset after the pop: no return in between on the pop's path
+                    for r, rps in F.walk(rootA):
+                        if r.get("k") == "Ret" and pk[2] <= T._span_key(r["span"])[1] <= xk[1] and all(id(a) in {id(b2) for b2, _ in rps} for a, key in pps if a.get("k") in ("If", "Match")):
+                            early_return_between = True
+            if not in_short_circuit and not extra_conds and not other_branch and not early_return_between:
                 ok_reset = True
         rep.oblige(
             ok_reset,
             "R08.3",
-            "kill-request-cleared-on-retire",
+            "kill-request-cleared-on-retire" + (f"#{pi + 1}" if pi else ""),
             F.loc(pop["span"]),
             "the request to kill the current thread is not cleared on every path that retires a thread (the reset is missing, conditional, or sits in a short-circuited operand): a left-over request ends the next queued thread after one instruction, so a whole branch is never explored",
             sample={"rule": "R08.3", "resets_found": len(resets), "unconditional_with_retire": ok_reset},
